@@ -79,6 +79,15 @@ def instance(cfg, need_p=False, with_k=None):
 
 
 def build(rec, cls):
+    try:
+        build_symbolic(rec, cls)
+    except (sym.Unsupported, sym.TooManyPaths) as ex:
+        rec.record('%s/symbolic-trace' % cls, ['chi._error_models.%s' % cls], 'P∞', 'undecided', 'engine', 0.0,
+                   'construct outside the symbolic model, obligations of this class fall back to the bounded run-time contract: %s' % ex)
+    runtime_contract(rec, cls)
+
+
+def build_symbolic(rec, cls):
     import chi as real_chi
     chi_sym = loader.load_shadow()
     cfg = MODELS[cls]
@@ -224,6 +233,88 @@ def build(rec, cls):
                lambda env: float(np.max(native_em.compute_pointwise_ll(theta_of(env), env['M'], env['O']))))
     support_ob('sens', lambda: em.compute_sensitivities(pars, model, sens, obs), f_se,
                lambda env: float(native_em.compute_sensitivities(theta_of(env), env['M'], env['Sens'], env['O'])[0]))
+
+
+def runtime_contract(rec, cls):
+    """bounded stand-in (never counted as proved): the same contract evaluated on the real functions at concrete inputs --
+    random instances inside the support against the numerically evaluated specification and its mechanically derived
+    derivative, plus boundary instances of the support clause."""
+    import chi as real_chi
+    from pvc.harness import jsonable
+    cfg = MODELS[cls]
+    th = TH[:cfg['nth']]
+    em = getattr(real_chi, cls)()
+    spec_ll = SUM(lambda j: logpdf(cfg, O[j], M[j], th), n)
+    s_ix = sym.fidx('s')
+    d_m = sp.diff(spec_ll, M[s_ix])
+    spec_mech = sp.Sum(d_m * SE[s_ix, k], (s_ix, 0, n - 1))
+    spec_err = [sp.diff(spec_ll, t) for t in th]
+    q = 'chi._error_models.%s.' % cls
+    funcs = [q + 'compute_log_likelihood', q + 'compute_pointwise_ll', q + 'compute_sensitivities']
+    rng = np.random.default_rng(rec.seed + 17)
+    n_cases = 12 if rec.tier == 'quick' else 60
+
+    def formula_cases():
+        for _ in range(n_cases):
+            yield ('inside', jsonable(Env(instance(cfg, need_p=True)(rng))))
+
+    def support_cases():
+        for t_bad in range(cfg['nth']):
+            for val in (0.0, -0.7):
+                env = Env(instance(cfg)(rng))
+                env[th[t_bad]] = val
+                yield ('outside', jsonable(env))
+        if cfg['log']:
+            for pattern in ('first', 'last', 'all', 'zero'):
+                env = Env(instance(cfg)(rng))
+                env[n] = 3
+                env['M'] = rng.uniform(0.5, 3.0, 3)
+                env['O'] = rng.uniform(0.5, 3.0, 3)
+                env['Sens'] = rng.normal(size=(3, int(env[p])))
+                if pattern == 'first':
+                    env['M'][0] = -1.3
+                elif pattern == 'last':
+                    env['M'][2] = -0.2
+                elif pattern == 'all':
+                    env['M'] = -env['M']
+                else:
+                    env['M'][1] = 0.0
+                yield ('outside', jsonable(env))
+
+    def one(case):
+        kind, envj = case
+        from pvc.harness import unjson_env
+        env = unjson_env(envj)
+        env['Sens'] = np.array(envj['Sens'], dtype=float).reshape(int(env[n]), int(env[p]))
+        thv = [env[t] for t in th]
+        ll = em.compute_log_likelihood(thv, env['M'], env['O'])
+        pw = em.compute_pointwise_ll(thv, env['M'], env['O'])
+        sc, gr = em.compute_sensitivities(thv, env['M'], env['Sens'], env['O'])
+        if kind == 'outside':
+            if not (ll == -np.inf and sc == -np.inf and np.all(np.asarray(pw) == -np.inf)):
+                return 'outside the support: value %r, pointwise %r, score %r (expected -inf)' % (ll, np.asarray(pw).tolist(), sc)
+            return None
+        want = evalx.ev(spec_ll, env)
+        if not evalx.close(float(ll), want, 1e-7, 1e-9) or not evalx.close(float(sc), want, 1e-7, 1e-9):
+            return 'value %r / score %r differ from the documented log-density %r' % (ll, sc, want)
+        if not evalx.close(float(np.sum(pw)), want, 1e-7, 1e-9):
+            return 'pointwise sum %r differs from the total %r' % (float(np.sum(pw)), want)
+        if len(gr) != int(env[p]) + cfg['nth']:
+            return 'gradient length %d, expected %d' % (len(gr), int(env[p]) + cfg['nth'])
+        for kk in range(int(env[p])):
+            env[k] = kk
+            w_ = evalx.ev(spec_mech, env)
+            if not evalx.close(float(gr[kk]), w_, 1e-6, 1e-8):
+                return 'sensitivity %d is %r, derivative of the documented density is %r' % (kk, float(gr[kk]), w_)
+        for t_ in range(cfg['nth']):
+            w_ = evalx.ev(spec_err[t_], env)
+            if not evalx.close(float(gr[int(env[p]) + t_]), w_, 1e-6, 1e-8):
+                return 'sensitivity w.r.t. error parameter %d is %r, expected %r' % (t_, float(gr[int(env[p]) + t_]), w_)
+        return None
+    rec.native_check('%s/runtime-contract' % cls, funcs, list(formula_cases()) + list(support_cases()), one,
+                     'seeded instances inside the support (n in 1..5, p in 1..3, random values) compared with the numerically evaluated '
+                     'specification and its derivative; boundary instances of the support clause (each scale parameter 0 and negative; '
+                     'log-normal: negative/zero outputs at first/last/all/middle positions); distinct by full input')
 
 
 def harness_json(env):
